@@ -6,6 +6,7 @@ import StepModel.GenCxxFrame
 import StepModel.GenCxxCalls
 import StepModel.RegistryModel
 import StepModel.Accessors
+import StepModel.GenCxxRulesLemmas
 /-!
 # C02 — generated dictionary and classes mirror the EXPRESS schema
 
@@ -1097,6 +1098,44 @@ theorem C02_accessor_null_entity_witness {V : Type} (fresh : V) (c : Option V) :
 theorem C02_accessor_null_aggregate_witness {V : Type} (fresh : V) (c : Option V) :
     setter fresh .aggregate c none = .crash := by
   cases c <;> rfl
+
+/-! ## WHERE / UNIQUE rules and EXPRESS text in emitted string literals -/
+
+/-- Every entity descriptor and every named type descriptor carries the rules of its declaration: one text per WHERE / UNIQUE
+    clause, in clause order, made of the clause's label and expression(s).  The pieces the generator puts around them (`: (`,
+    `);`, ` : `, `, `, the upper-cased UNIQUE label, the parser's `<unnamed>`) are regenerated from rules.c / expparse.y
+    (`Generated/RuleGen.lean`); the specification states them literally, so a change there stops this from elaborating.
+    The expression text itself is an input (C07 is about the printer). -/
+theorem C02_mirror_rules (s : Schema) : Spec.MirrorRules s (ruleDict s) where
+  entities := forall2_map _ _ (fun _ _ =>
+    ⟨rfl, forall2_map _ _ (fun w _ => mirrorWhere_whereText w), forall2_map _ _ (fun u _ => mirrorUnique_uniqueText u)⟩)
+  types := forall2_map _ _ (fun _ _ => ⟨rfl, forall2_map _ _ (fun w _ => mirrorWhere_whereText w), rfl⟩)
+
+/-- Tie: both functions that copy EXPRESS text into C++ string literals write a backslash in front of exactly the backslash and
+    the double quote (regenerated from classes.c).  Before fix C02-10 the double quote was missing — see the witness below. -/
+theorem C02_literal_escapes :
+    EscapesQuoteAndBackslash stdLiteralEscapes ∧ EscapesQuoteAndBackslash initLiteralEscapes := by
+  constructor <;> intro c <;> simp only [stdLiteralEscapes, initLiteralEscapes, bsl, dq, List.contains, List.elem] <;>
+    cases (c == Char.ofNat 92) <;> cases (c == Char.ofNat 34) <;> rfl
+
+/-- The text of a rule (function, global rule, supertype expression), whatever characters it contains: every
+    `str.append( "…" )` statement `format_for_std_stringout` writes is a well-formed string literal (no literal ends early, no
+    stray backslash), and together they denote the text up to line breaks. -/
+theorem C02_rule_text_compiles (t : List Char) :
+    ∃ d, stdDenotes stdLiteralEscapes t = some d ∧ noNl d = noNl t :=
+  fmtStd_denotes C02_literal_escapes.1 t
+
+/-- The initializer of a derived attribute: the one literal `format_for_stringout` writes is well formed and denotes exactly
+    the text. -/
+theorem C02_initializer_text_compiles (t : List Char) : cLit (fmtInit initLiteralEscapes t) = some t :=
+  fmtInit_denotes C02_literal_escapes.2 t
+
+/-- What the proofs above needed and the code did not provide: with only the backslash escaped (the code before fix C02-10),
+    the EXPRESS text `'a"b'` leaves its string literal.  Run on the real code: the generated library does not compile
+    (corpus d10, d11). -/
+theorem C02_unescaped_quote_witness :
+    stdDenotes [bsl] ['\'', 'a', dq, 'b', '\''] = none ∧ cLit (fmtInit [bsl] ['\'', 'a', dq, 'b', '\'']) = none := by
+  constructor <;> decide
 
 end StepModel.GenCxx
 
